@@ -269,7 +269,7 @@ func connCost(st netceptor.Status, pre c06Pre, peer string) float64 {
 
 func runC06Once(t *testing.T, sc c06Scenario, r *xrun) []Violation {
 	var out CaseOut
-	synctest.Test(t, func(t *testing.T) {
+	bubble(t, func(t *testing.T) {
 		m := newMesh(defaultConsts, "a", "b", "c")
 		m.logEmit = true
 		m.idOf = map[string]string{}
@@ -370,7 +370,7 @@ var c06Alphabet = []c06Upd{
 func runC06Scripted(t *testing.T, seq []int) CaseOut {
 	var out CaseOut
 	out.Nontrivial = len(seq) > 1
-	synctest.Test(t, func(t *testing.T) {
+	bubble(t, func(t *testing.T) {
 		m := newMesh(defaultConsts, "a", "b")
 		m.logEmit = true
 		m.up("a", "b", 1)
